@@ -44,6 +44,12 @@ func main() {
 	if viewAll.N > 0 {
 		meta.GoOnly = append(meta.GoOnly, viewAll)
 	}
+	if runAll.N > 0 {
+		meta.GoOnly = append(meta.GoOnly, runAll)
+	}
+	if spareAll.N > 0 {
+		meta.GoOnly = append(meta.GoOnly, spareAll)
+	}
 	if orderAll.N > 0 {
 		meta.GoOnly = append(meta.GoOnly, orderAll)
 	}
